@@ -15,6 +15,7 @@ type TypeDesc struct {
 	Kind string   // struct | map | slice
 	Tags []string // db tags (struct) or suggested keys (map)
 	Rare bool     // picked less often (types Prepare rejects)
+	Hot  bool     // picked more often (members reached through several levels of embedding)
 }
 
 type Schema struct {
@@ -79,6 +80,11 @@ func (g *G) typ(kind string) TypeDesc {
 			c = append(c, t)
 			if !t.Rare {
 				c = append(c, t, t, t, t, t, t, t)
+			}
+			if t.Hot {
+				for k := 0; k < 24; k++ {
+					c = append(c, t)
+				}
 			}
 		}
 	}
@@ -585,8 +591,34 @@ func (g *G) Raw() string {
 	return string(b)
 }
 
+// leading produces a query that begins, at its very first byte, with an expression whose
+// first token is unusual (a number, an odd identifier, a function call).
+func (g *G) leading() string {
+	g.count("leading-expr")
+	first := g.R.Pick([]string{"0", "1", "42", "9", "123", "1a", "3.14", "-1", "x", "_y", "count(*)", "\"q\"", "'s'", "名前", "t.a", "*", "t.*"})
+	t := g.typ("member")
+	var e string
+	switch g.R.Intn(5) {
+	case 0:
+		e = first + g.as() + "&" + t.Name + "." + g.tag(t)
+	case 1:
+		e = first + g.as() + "(&" + t.Name + "." + g.tag(t) + ")"
+	case 2:
+		e = "(" + first + g.sep() + g.column() + ")" + g.as() + "(&" + t.Name + ".*)"
+	case 3:
+		e = first + g.sep() + g.column() + g.as() + "&" + t.Name + ".*"
+	default:
+		e = first + g.as() + "&" + t.Name + ".*"
+	}
+	tail := g.R.Pick([]string{" FROM t", ", $" + t.Name + " FROM t", " FROM t WHERE a = " + g.memberInput(), "", "\nFROM t", " " + g.glue()})
+	return e + tail
+}
+
 // Query draws from all streams; seeds are existing queries to mutate/splice.
 func (g *G) Query(seeds []string) string {
+	if g.R.Chance(1, 25) {
+		return g.leading()
+	}
 	switch x := g.R.Intn(20); {
 	case x < 6:
 		return g.Skeleton()
